@@ -383,6 +383,12 @@ class Unit:
         contract = "".join(parts.get("contract", []))
         clause_map = []  # filled when emitting
 
+        if "nobody" in opts and it["trait_def"] and it["body"]:
+            # a trait method with a default body, emitted as a bare declaration (the default body is verified separately)
+            it = dict(it)
+            it["sig_end_for_decl"] = it["body"][0]
+            it["body"] = None
+            self.log("R5", relfile, src, it["sig"][0], f"{path}: default body not part of the trait declaration in the unit")
         body = it["body"]
         ext_body = "ext_body" in opts
         if body is None and not ext_body and not it["trait_def"]:
@@ -552,7 +558,7 @@ class Unit:
         if ext_body:
             head += "#[verifier::external_body]\n"
             self.trusted.append(f"assumed contract (external_body): {relfile} :: {path}")
-        sig_text = r.render(s, it["body"][0] if it["body"] else sig_e).rstrip()
+        sig_text = r.render(s, it["body"][0] if it["body"] else it.get("sig_end_for_decl", sig_e)).rstrip()
         sig_text = re.sub(r"\n[ \t]*\n+", "\n", sig_text).lstrip("\n")
         for a_, b_ in opts.get("subs", []):
             if a_ not in sig_text:
